@@ -267,6 +267,127 @@ def corr_wrapper(ctx, rng, drv):
         ctx.notes.append("wrapper disagreement on %s dim %d followed by divergence + ensemble probes on that configuration" % (cfg["cls"], cfg["dim"]))
 
 
+# ----------------------------------------------------------------------------------------------- option cells
+
+DEFAULT = "<default>"
+OPTION_VALUES = {
+    # every numeric option of the generator / model: falsy, signed-zero, negative, tiny, huge values, numpy scalars, the
+    # documented default (option omitted).  Expected value used by the model prediction = float()/int() of the given value.
+    "mean_velocity": [0, 0.0, -0.0, np.float64(0.0), np.int64(0), np.float32(0.0), -1.5, -1, 3, 1e-300, 1e-12, 1e100,
+                      np.float32(2.5), np.float64(-0.25), np.int64(4), DEFAULT],
+    "var": [1e-200, 1e-12, 1, 3, 1e12, 1e150, np.float64(2.0), np.float32(0.5)],
+    "mode_no": [1, 2, 3, np.int64(5), 7.0, np.float64(4.0), DEFAULT],
+    "len_scale": [1e-8, 1e-3, 1, 7, 1e6, np.float32(1.5), np.int64(2)],
+    "seed": [0, 1, np.int64(7), 2 ** 31 - 1],
+}
+OPTION_DEFAULTS = {"mean_velocity": 1.0, "mode_no": 1000}          # documented defaults of IncomprRandMeth
+OPTION_BASE = {"mean_velocity": 0.7, "var": 1.3, "mode_no": 6, "len_scale": 2.5, "seed": 12345}
+ALIASES = ["VectorField", "VelocityField", "IncomprRandMeth"]
+
+
+def option_cell(ctx, drv, cls, dim, opts, route, pos_unit, followups):
+    """one cell: build the bare generator (route 'generator') or SRF(generator=<alias>) with the given option values and
+    compare its output with the extracted model evaluated at the values the user passed:
+       field = mean_u e1 + mean_u sqrt(var/N) * kernel sum     (mean_u = float(mean_velocity), N = int(mode_no))"""
+    import gstools as gs
+    from gstools.field.generator import IncomprRandMeth
+    from gstools.field import summator as S
+    given = {k: v for k, v in opts.items() if not (isinstance(v, str) and v == DEFAULT)}
+    exp = {k: (OPTION_DEFAULTS[k] if (isinstance(v, str) and v == DEFAULT) else v) for k, v in opts.items()}
+    mean_u = float(exp["mean_velocity"]); N = int(exp["mode_no"])
+    desc = {k: ("%s(%r)" % (type(v).__name__, v.item() if hasattr(v, "item") else v)) for k, v in opts.items()}
+    pos = np.ascontiguousarray(pos_unit * float(exp["len_scale"]))
+    case = dict(cls=cls, dim=dim, options=desc, route=route, pos=hexarr(pos))
+    try:
+        with warnings.catch_warnings():
+            warnings.simplefilter("ignore")
+            model = getattr(gs, cls)(dim=dim, var=opts["var"], len_scale=opts["len_scale"])
+            kw = {k: given[k] for k in ("mean_velocity", "mode_no", "seed") if k in given}
+            if route == "generator":
+                g = IncomprRandMeth(model, **kw)
+                out = np.asarray(g(pos, add_nugget=False))
+            else:
+                srf = gs.SRF(model, generator=route, **kw)
+                out = np.asarray(srf(tuple(pos), mesh_type="unstructured"))
+                g = srf.generator
+            ks, z1, z2 = (np.ascontiguousarray(np.asarray(a, dtype=float)) for a in (g._cov_sample, g._z_1, g._z_2))
+            var = float(model.var)
+            sm = np.asarray(S.summate_incompr(ks, z1, z2, pos))
+            mod = np.asarray(drv.call("generate", mean_u, var, ("z", N), ks, z1, z2, pos, np.zeros_like(pos)))
+            public = dict(mean_u=g.mean_u, mode_no=g.mode_no, seed=g.seed)
+    except Exception as e:
+        ctx.violation("correspondence: option cell", "unexpected exception %r for a valid option value" % (e,), case,
+                      key="options:exception:%s" % route, no_input=True)
+        return
+    key_opt = "+".join(k for k in opts if opts[k] is not OPTION_BASE.get(k)) or "base"
+    ctx.count(("options", cls, dim, route, tuple(sorted(desc.items()))),
+              hist=dict(stage="option-cells", route=route, varied=key_opt, dim=dim))
+    problems = []
+    if ks.shape != (dim, N) or z1.shape != (N,) or z2.shape != (N,):
+        problems.append("generator holds %r modes for mode_no=%r" % (ks.shape, opts["mode_no"]))
+    if not (float(public["mean_u"]) == mean_u and int(public["mode_no"]) == N):
+        problems.append("public mean_u=%r / mode_no=%r differ from the given values" % (public["mean_u"], public["mode_no"]))
+    amp = mean_u * math.sqrt(var / N)
+    tol = wrapper_tol(mean_u, amp, sm, np.zeros_like(sm))
+    if out.shape != mod.shape or not (np.abs(out - mod) <= tol).all():
+        problems.append("output differs from the model prediction: max |diff| %.3g" % (
+            float(np.nanmax(np.abs(out - mod))) if out.shape == mod.shape else float("nan")))
+    if not problems:
+        return
+    if mean_u == 0.0 and np.any(out != 0.0):
+        # mean_u = 0: the field is identically zero (field = mean_u * (e1 + sqrt(var/N) * sum)); deterministic counter-example
+        ctx.violation("correspondence: option cell %s via %s" % (desc, route),
+                      "mean_velocity = %s must give the identically zero field (mean mean_u e1 = 0, variance mean_u^2 var q = 0); "
+                      "got values up to %.3g; %s" % (desc["mean_velocity"], float(np.max(np.abs(out))), "; ".join(problems)),
+                      dict(case, got=hexarr(out), model=hexarr(mod)), key="options:mean_velocity=0:%s" % route)
+        return
+    ctx.violation("correspondence: option cell %s via %s" % (desc, route), "; ".join(problems),
+                  dict(case, got=hexarr(out), model=hexarr(mod)), key="options:%s:%s" % (key_opt, route), no_input=True)
+    followups.append(dict(cls=cls, dim=dim, var=float(exp["var"]), len_scale=float(exp["len_scale"]), mean_u=mean_u,
+                          mode_no=max(N, 16), seed=int(exp["seed"]), opt={}))
+
+
+def corr_options(ctx, rng, drv):
+    """boundary / falsy / numpy-scalar values of every numeric option, one option at a time and in random pairs, on the bare
+    generator and through SRF with every generator alias, dims 2 and 3"""
+    followups = []
+    thorough = ctx.tier == "thorough"
+    n = 0
+    for dim in (2, 3):
+        pos_unit = np.ascontiguousarray(rng.uniform(-3, 3, size=(dim, 4)))
+        classes = ["Gaussian"] + (["Exponential", "TPLExponential"] if thorough else [])
+        for cls in classes:
+            for name, values in OPTION_VALUES.items():
+                for v in values:
+                    opts = dict(OPTION_BASE); opts[name] = v
+                    if name != "mode_no" and opts["mode_no"] == 6:
+                        opts["mode_no"] = 6
+                    routes = ["generator"] + (ALIASES if (thorough or name == "mean_velocity") else [ALIASES[n % 3]])
+                    for route in routes:
+                        option_cell(ctx, drv, cls, dim, opts, route, pos_unit, followups); n += 1
+        # pairs of options
+        names = list(OPTION_VALUES)
+        for _ in range(40 if thorough else 12):
+            a, b = rng.choice(len(names), size=2, replace=False)
+            opts = dict(OPTION_BASE)
+            for i in (a, b):
+                vals = OPTION_VALUES[names[i]]
+                opts[names[i]] = vals[int(rng.integers(len(vals)))]
+            if isinstance(opts["mode_no"], str):
+                opts["mode_no"] = 9          # keep pair cells cheap
+            route = (["generator"] + ALIASES)[int(rng.integers(4))]
+            option_cell(ctx, drv, "Gaussian", dim, opts, route, pos_unit, followups); n += 1
+    ctx.notes.append("option cells: %d constructions (values: %s)" % (n, {k: len(v) for k, v in OPTION_VALUES.items()}))
+    seen = set()
+    for cfg in followups:
+        k = (cfg["cls"], cfg["dim"], cfg["mean_u"], cfg["var"])
+        if k in seen or len(seen) >= 2:
+            continue
+        seen.add(k)
+        xs = np.ascontiguousarray(rng.uniform(-50, 50, size=(cfg["dim"], 24)) * cfg["len_scale"])
+        run_ensemble(ctx, cfg, 200, rng.choice(2 ** 31 - 1, size=200, replace=False), xs)
+
+
 # ----------------------------------------------------------------------------------------------- probes
 
 def modes_of(srf):
@@ -443,11 +564,11 @@ def run_ensemble(ctx, cfg, M, seeds, x, history=False):
     for variant, (ms, vs) in out.items():
         m_est, m_se = ms.mean(0), ms.std(0, ddof=1) / math.sqrt(M)
         v_est, v_se = vs.mean(0), vs.std(0, ddof=1) / math.sqrt(M)
-        worst = max(worst, float((6 * v_se / target).max()))
+        worst = max(worst, float((6 * v_se / np.maximum(target, 1e-300)).max())) if cfg["mean_u"] != 0 else worst
         if variant == "add_nugget=True":
             ctx.sample(dict(stage="ensemble-probe", cfg=cfg, seeds=M, history=history, mean=[float(v) for v in m_est],
-                            mean_se=[float(v) for v in m_se], var_over_target=[float(v) for v in v_est / target],
-                            var_se_over_target=[float(v) for v in v_se / target]), limit=9)
+                            mean_se=[float(v) for v in m_se], var_over_target=[float(v) for v in v_est / np.maximum(target, 1e-300)],
+                            var_se_over_target=[float(v) for v in v_se / np.maximum(target, 1e-300)]), limit=9)
         for d in range(dim):
             if abs(m_est[d] - mu[d]) > 6 * m_se[d] + 1e-12 * abs(cfg["mean_u"]):
                 ctx.violation("probe: ensemble mean (generator call, %s)" % variant,
@@ -561,7 +682,7 @@ def apply_history(rng, cfg):
     names = [n for n in ("mean_u", "var", "len_scale", "mode_no", "seed") if rng.random() < 0.6] or ["mean_u"]
     B = dict(cfg)
     if "mean_u" in names:
-        B["mean_u"] = float(cfg["mean_u"] * rng.choice([-3.1, -0.4, 0.3, 2.3]))
+        B["mean_u"] = float(cfg["mean_u"] * rng.choice([-3.1, -0.4, 0.3, 2.3, 0.0, -0.0]))
     if "var" in names:
         B["var"] = float(cfg["var"] * rng.choice([0.3, 2.5]))
     if "len_scale" in names:
@@ -740,7 +861,8 @@ def run(ctx):
     import time
     try:
         stages = ([("kernel correspondence", lambda: corr_kernel(ctx, rng, drv)),
-                   ("wrapper correspondence", lambda: corr_wrapper(ctx, rng, drv))] if drv is not None else []) + [
+                   ("wrapper correspondence", lambda: corr_wrapper(ctx, rng, drv)),
+                   ("option cells", lambda: corr_options(ctx, rng, drv))] if drv is not None else []) + [
                   ("divergence probe", lambda: probe_divergence(ctx, rng)),
                   ("pointwise probe", lambda: probe_pointwise(ctx, rng)),
                   ("history probe", lambda: probe_history(ctx, rng)),
